@@ -302,6 +302,119 @@ def rt_pass(o, exe, sub, args, timeout, crash_is_violation=None, prefix="", name
     return rep
 
 
+ASAN_FLAGS = "-Zsanitizer=address -Cforce-frame-pointers=yes " + CFG_FLAGS
+
+
+def build_asan(features=()):
+    """rt instrumented with AddressSanitizer (nightly). Own target dir; host proc-macros stay uninstrumented via --target."""
+    return build_rt(features, extra_env={"RUSTFLAGS": ASAN_FLAGS}, tag="rt-asan", toolchain="nightly",
+                    extra_args=["--target", "x86_64-unknown-linux-gnu"], target_dir=os.path.join(TARGET, "asan"))
+
+
+def asan_pass(o, exe, sub, args, timeout, key):
+    """Run a workload slice under ASan. A report aborts the child (halt_on_error) and is a violation of `key`."""
+    os.makedirs(os.path.join(WORK, "out"), exist_ok=True)
+    out = os.path.join(WORK, "out", "%s-asan-%d.json" % (o.prop, os.getpid()))
+    env = base_env()
+    env["ASAN_OPTIONS"] = "halt_on_error=1:abort_on_error=1:detect_leaks=0:allocator_may_return_null=1:symbolize=1"
+    cmd = [exe, sub, "--prop", o.prop, "--seed", str(o.seed), "--tier", o.tier, "--threads", str(NCPU)] + [str(a) for a in args] + ["--out", out]
+    try:
+        p = subprocess.run(cmd, env=env, stdout=subprocess.PIPE, stderr=subprocess.PIPE, text=True, timeout=timeout, errors="replace")
+    except subprocess.TimeoutExpired:
+        o.inconclusive.append("watchdog: ASan slice did not finish within %ds" % timeout)
+        return
+    if "ERROR: AddressSanitizer" in p.stderr:
+        first = p.stderr[p.stderr.index("ERROR: AddressSanitizer"):][:3000]
+        o.violations.append({"key": key, "msg": "AddressSanitizer report while running the `%s` workload:\n%s" % (sub, first), "case": {"args": cmd[1:], "seed": o.seed}})
+        o.violation_count += 1
+        return
+    if p.returncode != 0 or not os.path.exists(out):
+        o.inconclusive.append("ASan slice failed (status %s) without a sanitizer report: %s" % (p.returncode, p.stderr[-500:]))
+        return
+    rep = json.load(open(out))
+    os.remove(out)
+    o.add_report(rep, "asan_")
+    o.extra["asan"] = "no AddressSanitizer report on %d evaluations" % rep.get("evaluations", 0)
+
+
+def miri_pass(o, sub, args, shards, secs, key, features=()):
+    """Run `shards` single-threaded Miri processes of the monitored binary in parallel, each under a time budget."""
+    env = base_env()
+    env["CARGO_TARGET_DIR"] = os.path.join(TARGET, "miri")
+    env["MIRIFLAGS"] = "-Zmiri-disable-isolation"
+    os.makedirs(os.path.join(WORK, "out"), exist_ok=True)
+    base = ["cargo", "+nightly", "miri", "run", "--offline", "-q", "-p", "rt"]
+    if features:
+        base += ["--features", ",".join(features)]
+    # first shard alone builds; the others reuse the artefacts
+    procs = []
+    with Lock("miri"):
+        pre = subprocess.run(["cargo", "+nightly", "miri", "run", "--offline", "-q", "-p", "rt"] + (["--features", ",".join(features)] if features else []) + ["--", "noop"],
+                             cwd=HARNESS, env=env, stdout=subprocess.PIPE, stderr=subprocess.PIPE, text=True)
+        if "unknown subcommand" not in pre.stderr:
+            o.inconclusive.append("Miri build of the harness failed: %s" % pre.stderr[-600:])
+            return
+        for k in range(shards):
+            out = os.path.join(WORK, "out", "%s-miri-%d-%d.json" % (o.prop, os.getpid(), k))
+            cmd = base + ["--", sub, "--prop", o.prop, "--seed", str(o.seed), "--tier", o.tier, "--threads", "1", "--first", str(1_000_000 + k * 10_000),
+                          "--max-secs", str(secs), "--hashes", "1"] + [str(a) for a in args] + ["--out", out]
+            procs.append((k, out, subprocess.Popen(cmd, cwd=HARNESS, env=env, stdout=subprocess.PIPE, stderr=subprocess.PIPE, text=True, errors="replace")))
+        total = 0
+        hashes = set()
+        for k, out, p in procs:
+            try:
+                so, se = p.communicate(timeout=secs * 3 + 600)
+            except subprocess.TimeoutExpired:
+                p.kill()
+                o.inconclusive.append("watchdog: Miri shard %d did not finish" % k)
+                continue
+            if "Undefined Behavior" in se or "error: unsupported operation" in se and False:
+                first = se[se.index("Undefined Behavior") - 10:][:3000]
+                o.violations.append({"key": key, "msg": "Miri reported undefined behaviour while running the `%s` workload:\n%s" % (sub, first), "case": {"shard": k, "seed": o.seed}})
+                o.violation_count += 1
+                continue
+            if p.returncode != 0 or not os.path.exists(out):
+                o.inconclusive.append("Miri shard %d failed (status %s): %s" % (k, p.returncode, se[-400:]))
+                continue
+            rep = json.load(open(out))
+            os.remove(out)
+            hs = rep.pop("distinct_hashes", [])
+            hashes.update(hs)
+            rep["distinct_nontrivial"] = 0
+            o.add_report(rep, "miri_")
+            total += rep.get("evaluations", 0)
+        o.distinct += len(hashes)
+        o.extra["miri"] = "no undefined behaviour reported on %d evaluations in %d single-threaded processes (Stacked Borrows, isolation disabled)" % (total, shards)
+
+
+def p_decode(o):
+    exe = build_rt()
+    o.replay_base = {"sub": "decode"}
+    crash = ("C14/crash", "decoding aborted or crashed the process")
+    rt_pass(o, exe, "decode", ["--cases", sizes(o.tier, 8_000, 40_000), "--max-secs", sizes(o.tier, 90, 600)], timeout=sizes(o.tier, 400, 1800), crash_is_violation=crash)
+    o.extra["exhaustive"] = True
+    o.extra["exhaustive_scope"] = ("for every base input counted in bases_with_all_truncations_and_bitflips, ALL truncations and ALL single-bit flips were executed "
+                                   "(also every byte insert/delete/duplicate position and every length/id/option/tag slot x 17 hostile encodings); other fault classes are sampled")
+    o.rule = ("base inputs = reference encodings / JSON of small RegGen registries; faults: all truncations, all single-bit flips, insert/delete/duplicate at every position, "
+              "every compact length / id / option / tag slot overwritten with hostile encodings, splices, random bytes, sequences of 2-4 faults, lying nested lengths, many minimal elements; "
+              "JSON: truncation at every byte, byte faults, structural faults (key delete/unknown key/type swap/out-of-range numbers/unknown tags), deep nesting, megabyte strings. "
+              "Every input is non-trivial; distinct = distinct input byte strings.")
+    o.need(["scale_accepted", "scale_rejected", "json_accepted", "json_rejected", "resolve_out_of_range_none", "scale_class_truncation", "scale_class_bitflip",
+            "scale_class_slot-veclen", "scale_class_slot-strlen", "scale_class_slot-id", "scale_class_slot-option", "scale_class_slot-deftag", "scale_class_lying-lengths",
+            "scale_class_fault-sequence", "json_class_truncation", "json_class_fixed-hostile"])
+    o.extra["memory_bound"] = "peak live heap during one decode <= 128*len + 262144 bytes (counting allocator, sizes only)"
+    o.assumptions = ["memory proportionality is judged against the fixed bound 128*len + 256 KiB (calibrated: worst observed slope 24 bytes per input byte, 16 KiB per open vector)",
+                     "a panic is observed through catch_unwind, an abort/signal through the child-process boundary",
+                     "the set of rejected inputs is not pinned beyond canonicality of the accepted ones"]
+    if o.tier == "thorough":
+        try:
+            aexe = build_asan()
+            asan_pass(o, aexe, "decode", ["--cases", 20_000, "--first", 500_000, "--max-secs", 240], timeout=1500, key="C14/asan-report")
+        except Inconclusive as e:
+            o.inconclusive.append("ASan build unavailable: %s" % str(e)[-400:])
+        miri_pass(o, "decode", ["--cases", 10_000, "--light", 6], shards=NCPU, secs=300, key="C14/miri-ub")
+
+
 # ---------------------------------------------------------------------------------------------
 # property table
 
@@ -369,6 +482,7 @@ PROPS = {
     "C07": dict(fn=p_codec, level="exploration"),
     "C08": dict(fn=p_codec, level="exploration"),
     "C10": dict(fn=p_retain, level="exploration"),
+    "C14": dict(fn=p_decode, level="fault_enumeration"),
     "C12": dict(fn=p_table, level="exploration"),
     "C18": dict(fn=p_ident, level="exploration"),
 }
